@@ -326,6 +326,20 @@ def run_case(case, ctx):
             partly = pd.DataFrame({"a": cells, "b": np.arange(case["ni"], dtype=float)})
             ctx.check("predicate", [bool(x) for x in D.are_columns_nested(partly)] == [True, False] and D.is_nested_dataframe(partly),
                       "predicate:partly-nested-column", "a column containing one series-valued cell is not reported as nested", row_of_the_series_cell=where, rows=case["ni"])
+    # a nested panel whose instances are labelled by a two-level row index (group, id): still a nested frame, still convertible
+    if case["ni"] >= 2:
+        grouped = df.copy()
+        grouped.index = pd.MultiIndex.from_tuples([("g%d" % (i % 2), i) for i in range(case["ni"])], names=["group", "id"])
+        ctx.check("predicate", bool(D.is_nested_dataframe(grouped)) and [bool(x) for x in D.are_columns_nested(grouped)] == [True] * case["nc"],
+                  "predicate:nested-frame-with-two-level-row-labels", "a nested frame whose rows carry a two-level index is not reported as nested")
+        ok, a3g = ctx.call("convert:exception:nested-with-two-level-row-labels->np3d", D.from_nested_to_3d_numpy, grouped)
+        if ok:
+            ctx.check("path.values", np.shape(a3g) == arr.shape and np.array_equal(np.asarray(a3g, dtype=float), arr), "convert:values-differ:nested-with-two-level-row-labels->np3d",
+                      "nested -> 3-d array differs for a nested frame with a two-level row index")
+        ok, a3c = ctx.call("check_X:exception:two-level-row-labels", check_X, grouped, coerce_to_numpy=True)
+        if ok:
+            ctx.check("check_X", np.shape(a3c) == arr.shape and np.array_equal(np.asarray(a3c, dtype=float), arr), "check_X:coerce_to_numpy:two-level-row-labels",
+                      "check_X(coerce_to_numpy=True) differs for a nested frame with a two-level row index")
     ctx.check("predicate", D.is_nested_dataframe(arr) is False and not D.is_nested_dataframe(pd.DataFrame(arr[:, 0, :])),
               "predicate:non-nested", "is_nested_dataframe true for an array / flat frame")
     # container coercion at estimator boundaries equals the direct conversions
